@@ -428,7 +428,7 @@ def run_fail(spec, work, ctx):
         point = fc.split('-')[1]
         plan = {'log_dir': str(work / 'inj'),
                 'fault': {'worker': int(rng.integers(0, 3)),
-                          'mode': str(rng.choice(['kill', 'exit', 'raise'])),
+                          'mode': str(rng.choice(['kill', 'term', 'exit', 'raise'])),
                           'point': point, 'mid_after': 1}}
         if fc.endswith('slow-siblings'):
             # the surviving workers are held right before they write their
@@ -615,6 +615,46 @@ def run_history(spec, work, ctx):
     for dd, rel, kind in fsmon.diff_snapshots(planted, after2):
         ctx.V(f'C19:history-scratch-{kind}',
               f'{rel} {kind} in the shared scratch directory (stages)')
+    # an earlier run on another taxonomy left its statistics file, under
+    # the same file name, in the directory that now receives this run's
+    # reference markers / p-value mask; the statistics file this run was
+    # given lives elsewhere and exists
+    old_dir = work / 'output_dir_with_history'
+    new_dir = work / 'output_dir_clean'
+    old_dir.mkdir()
+    new_dir.mkdir()
+    (work / 'other').mkdir()
+    other = pw.make_reference(
+        np.random.default_rng(spec['seed'] + 77), work / 'other',
+        n_levels=2, n_leaves=4, n_genes=len(env.ref.genes),
+        cells_per_leaf=(6, 9))
+    pw.run_stats(other, old_dir / pathlib.Path(env.stats).name,
+                 work / 'sc', n_processors=2)
+    lks = {}
+    for tag, dd in (('history', old_dir), ('clean', new_dir)):
+        refm = dd / 'reference_markers.h5'
+        pw.run_ref_markers(env.stats, refm, work / 'sc', n_processors=2)
+        for search in (True, False):
+            try:
+                lk, _ = pw.run_query_markers(refm, env.ref.genes, None,
+                                             work / 'sc', n_processors=2,
+                                             search=search)
+            except Exception as exc:
+                if tag == 'clean':
+                    raise
+                lk = {'raised': f'{type(exc).__name__}: {exc}'[:300]}
+            lks[(tag, search)] = lk
+    for search in (True, False):
+        ctx.bump('histories_checked')
+        ctx.bump('earlier_run_products_in_output_dir')
+        if lks[('history', search)] != lks[('clean', search)]:
+            ctx.V('C19:earlier-products-change-result[query-markers,'
+                  f'search_for_stats_file={search}]',
+                  'selected markers depend on a same-named statistics file '
+                  'left in the reference-marker directory by an earlier '
+                  'run; parents '
+                  f'{sorted(lks[("history", search)])[:6]} vs '
+                  f'{sorted(lks[("clean", search)])[:6]}')
     return None
 
 
